@@ -940,14 +940,35 @@ class C21(HistoryProfile):
   def config(self, rng, tier):
     cfg = super(C21, self).config(rng, tier)
     cfg["weights"] = gen.swarm_weights(rng, self.base_weights(), keep=("add_table", "hostile_name"))
+    cfg["twin_summaries_start"] = rng.random() < 0.2
     return cfg
+
+  def first_events(self, sim, g, cfg):
+    yield {"k": "open"}
+    if not cfg.get("twin_summaries_start"):
+      return
+    # Two summary tables of one source whose natural ids coincide (grouped by [a, b] and by the
+    # column a_b): every id picked for one of them in a batch has to avoid the other's.
+    t = g.new_table_id()
+    yield {"k": "bundle", "ops": ["add_table"], "a": [
+      ["AddTable", t, [{"id": "a", "type": "Text", "isFormula": False}, {"id": "b", "type": "Text", "isFormula": False},
+                       {"id": "a_b", "type": "Text", "isFormula": False}]],
+      ["BulkAddRecord", t, [None, None], {"a": ["x", "y"], "b": ["p", "q"], "a_b": ["u", "v"]}]]}
+    dv = DocView(sim.sigma)
+    ta = dv.tables[t]
+    yield {"k": "bundle", "ops": ["add_summary"], "a": [
+      ["CreateViewSection", ta.ref, 0, "record", sorted([ta.cols["a"].ref, ta.cols["b"].ref]), None]]}
+    yield {"k": "bundle", "ops": ["add_summary"], "a": [
+      ["CreateViewSection", ta.ref, 0, "record", [ta.cols["a_b"].ref], None]]}
+    yield {"k": "bundle", "ops": ["hostile_name"], "a": [["RenameTable", t, g.new_table_id()]]}
 
   def check(self, sim, out, st):
     if out.ok is False and out.ev["k"] == "bundle" and "hostile_name" in out.ev.get("ops", ()):
       # A requested name never makes the action fail: the engine picks an id for it. An id that
       # is not valid Python shows up as the generated module failing to compile.
       err = str(out.error)
-      if "SyntaxError" in err or "invalid syntax" in err or "keyword" in err or "IndentationError" in err:
+      if "SyntaxError" in err or "invalid syntax" in err or "keyword" in err or "IndentationError" in err \
+          or "already exists" in err:
         raise vio(sim, "chosen-id-does-not-compile", "%s raised %s" % (
           json.dumps(out.ev["a"], default=repr)[:300], err[:300]))
       sim.count("probe.hostile_name_action_rejected")
